@@ -448,13 +448,17 @@ func AffineFromRef(p refmodel.Point) bandersnatch.PointAffine {
 	return bandersnatch.PointAffine{X: FpFromBig(x), Y: FpFromBig(y)}
 }
 
+func elemLayoutOf(e *banderwagon.Element) *elemLayout { return (*elemLayout)(unsafe.Pointer(e)) }
+
 func elemRaw(e *banderwagon.Element) [12]uint64 { return *(*[12]uint64)(unsafe.Pointer(e)) }
 
 // ---------------------------------------------------------------------------
 // Per-process environment.
 
 type Env struct {
-	Tier string
+	Tier         string
+	CachePath    string
+	CfgFromCache bool
 	cfg  *ipa.IPAConfig
 	once sync.Once
 
@@ -471,6 +475,15 @@ func (e *Env) Config() *ipa.IPAConfig {
 	e.once.Do(func() {
 		if verifsim.Active() {
 			panic("Env.Config must first be called outside a simulation")
+		}
+		if e.CachePath != "" {
+			if c, err := LoadConfigCache(e.CachePath); err == nil {
+				e.cfg = c
+				e.CfgFromCache = true
+				return
+			} else {
+				fmt.Fprintln(os.Stderr, "config cache unusable, building:", err)
+			}
 		}
 		c, err := ipa.NewIPASettings()
 		if err != nil {
@@ -529,6 +542,7 @@ type Job struct {
 	Samples  int             `json:"samples"`
 	ShrinkS  float64         `json:"shrink_s"`
 	WantClass string         `json:"want_class"`
+	ConfigCache string       `json:"config_cache"`
 }
 
 type Summary struct {
